@@ -75,6 +75,43 @@ func (e *Engine) verifyContract(ct *Contract) (rep *FuncReport) {
 		rep.Reason = "no function " + ct.FuncName + " in package " + ct.Pkg.name
 		return rep
 	}
+	if ct.CasesExpr != "" {
+		// one run per value of the case expression; the first run also proves that the cases cover the precondition
+		for k := ct.CasesLo; k <= ct.CasesHi; k++ {
+			ct2 := *ct
+			ct2.CasesExpr = ""
+			ct2.caseNote = fmt.Sprintf("@%s=%d", strings.ReplaceAll(ct.CasesExpr, " ", ""), k)
+			txt := fmt.Sprintf("%s == %d", ct.CasesExpr, k)
+			ex, err := parseSpec(txt)
+			if err != nil {
+				rep.Status = "stale-contract"
+				rep.Reason = err.Error()
+				return rep
+			}
+			ct2.Requires = append(append([]Clause{}, ct.Requires...), Clause{Text: txt, E: ex, Line: ct.Pos})
+			if k == ct.CasesLo {
+				ctxt := fmt.Sprintf("%d <= %s && %s <= %d", ct.CasesLo, ct.CasesExpr, ct.CasesExpr, ct.CasesHi)
+				cex, _ := parseSpec(ctxt)
+				ct2.caseCover = &Clause{Text: ctxt, E: cex, Line: ct.Pos}
+			}
+			sub := e.verifyContract(&ct2)
+			if sub.Status != "generated" {
+				sub.Name = rep.Name
+				return sub
+			}
+			for _, o := range sub.obls {
+				if o.Kind != "cases-cover" {
+					o.Name += ct2.caseNote
+				}
+			}
+			rep.obls = append(rep.obls, sub.obls...)
+			rep.Externs, rep.Inlined, rep.Notes = sub.Externs, sub.Inlined, sub.Notes
+		}
+		rep.Status = "generated"
+		rep.NumObl = len(rep.obls)
+		rep.Notes = append(rep.Notes, fmt.Sprintf("verified once per case %s in %d..%d (coverage of the precondition is the obligation cases-cover)", ct.CasesExpr, ct.CasesLo, ct.CasesHi))
+		return rep
+	}
 	c := newCtx(e, ct.Pkg, rep.Name, ct.Props)
 	c.bv = ct.Mode == "bv"
 	defer func() {
@@ -276,6 +313,10 @@ func (e *Engine) runFunc(c *Ctx, ct *Contract, fd *ast.FuncDecl) {
 	// requires
 	env := x.specEnv(st, body.Lbrace)
 	for k, rq := range ct.Requires {
+		if ct.caseCover != nil && k == len(ct.Requires)-1 {
+			// before the case hypothesis (the last requires) is assumed: the cases cover the precondition
+			c.oblige("cases-cover", "", tTrue, env.evalBool(ct.caseCover.E), fd.Pos(), "the case split covers the precondition: "+ct.caseCover.Text)
+		}
 		g := env.evalBool(rq.E)
 		c.assume(tTrue, g)
 		// cover: the precondition must be satisfiable
@@ -474,6 +515,29 @@ func (x *Exec) finish(fd *ast.FuncDecl) {
 			c.assume(tAnd(final.pc, ulCond), lenv.evalBool(en.E))
 		}
 		c.inlined["lemma:"+call.Fn] = true
+	}
+	// frame: a pointer parameter / receiver (value-mode pointer) that is not declared in `modifies` has an unchanged pointee
+	// (fields holding external objects excepted: their ghost state is described by the ensures) - callers rely on this
+	for obj, v := range x.entry.vars {
+		pv, ok := obj.(*types.Var)
+		if !ok || !(x.isParam(pv) || (x.sig.Recv() != nil && pv == x.sig.Recv())) || ct.Modifies[pv.Name()] {
+			continue
+		}
+		ep, isPt := v.(Pt)
+		if !isPt {
+			continue
+		}
+		fv, ok := final.vars[pv]
+		if !ok {
+			continue
+		}
+		fp, isPt2 := fv.(Pt)
+		if !isPt2 {
+			continue
+		}
+		if g := nonObjEq(ep.Elem, fp.Elem); g != tTrue {
+			c.oblige("frame", ":"+pv.Name(), tAnd(final.pc, tNot(ep.Nil)), g, fd.Body.Rbrace, "the struct "+pv.Name()+" points to is left unchanged (not declared in modifies; external objects inside excepted)")
+		}
 	}
 	if ct.Pure {
 		for obj, v := range x.entry.vars {
@@ -871,4 +935,40 @@ func boolTerm(b bool) string {
 		return tTrue
 	}
 	return tFalse
+}
+
+// nonObjEq: equality of two values of the same shape, ignoring external objects.
+func nonObjEq(a, b Val) string {
+	switch av := a.(type) {
+	case Obj:
+		return tTrue
+	case St:
+		bv, ok := b.(St)
+		if !ok || len(bv.F) != len(av.F) {
+			return tFalse
+		}
+		var cs []string
+		for i := range av.F {
+			cs = append(cs, nonObjEq(av.F[i], bv.F[i]))
+		}
+		return tAnd(cs...)
+	case Pt:
+		bv, ok := b.(Pt)
+		if !ok {
+			return tFalse
+		}
+		return tAnd(tEq(av.Nil, bv.Nil), nonObjEq(av.Elem, bv.Elem))
+	}
+	if containsObj(a) {
+		return tTrue
+	}
+	la, lb := leaves(a), leaves(b)
+	if len(la) != len(lb) {
+		return tFalse
+	}
+	var cs []string
+	for i := range la {
+		cs = append(cs, tEq(la[i], lb[i]))
+	}
+	return tAnd(cs...)
 }
